@@ -181,6 +181,97 @@ def register(I, T, reg, ret, panic, some, none, deref):
             return (y % 4 == 0 and y % 100 != 0) or y % 400 == 0
         return is_leap(y)
 
+    def rebuild(I, st, y, m, d, what):
+        """Option<NaiveDate> for civil fields (y,m,d): Some(valid date) or None."""
+        if not (is_sym(y) or is_sym(m) or is_sym(d)):
+            try:
+                return some(conc_date(y, m, d))
+            except ValueError:
+                return none()
+        rd, o = fresh("rd"), fresh("o")
+        cs = civil_constraints(to_z3(y), to_z3(m), to_z3(d), o, rd)
+        valid = z3.And(cs[:4])
+        def upd(st2):
+            st2.add(cs[4:])
+        return [(valid, ("do", upd, some(Date(rd, y, m, d, o)))), (z3.Not(valid), ("ret", none()))]
+
+    @reg("Datelike::with_year", "NaiveDate::with_year")
+    def with_year(I, st, a, c):
+        dt = fields(I, st, deref(I, st, a[0]))
+        return rebuild(I, st, a[1], dt.m, dt.d, "with_year")
+
+    @reg("Datelike::with_month", "NaiveDate::with_month")
+    def with_month(I, st, a, c):
+        dt = fields(I, st, deref(I, st, a[0]))
+        return rebuild(I, st, dt.y, a[1], dt.d, "with_month")
+
+    @reg("Datelike::with_day", "NaiveDate::with_day")
+    def with_day(I, st, a, c):
+        dt = fields(I, st, deref(I, st, a[0]))
+        return rebuild(I, st, dt.y, dt.m, a[1], "with_day")
+
+    @reg("NaiveDate::from_yo_opt")
+    def from_yo_opt(I, st, a, c):
+        y, o = a
+        if not (is_sym(y) or is_sym(o)):
+            try:
+                d0 = datetime.date(y, 1, 1) + datetime.timedelta(days=o - 1)
+                return some(conc_date(d0.year, d0.month, d0.day)) if d0.year == y and o >= 1 else none()
+            except (ValueError, OverflowError):
+                return none()
+        rd = fresh("rd")
+        cs = yo_constraints(to_z3(y), to_z3(o), rd)
+        valid = z3.And(cs[:2])
+        def upd(st2):
+            st2.add(cs[2:])
+        return [(valid, ("do", upd, some(Date(rd, y, None, None, o)))), (z3.Not(valid), ("ret", none()))]
+
+    def opt_shift(delta_fn, what):
+        def h(I, st, a, c):
+            dt = deref(I, st, a[0])
+            delta = delta_fn(I, st, a)
+            rd = dt.rd + delta
+            ok = in_range(rd)
+            if ok is True:
+                return some(Date(rd))
+            if ok is False:
+                return none()
+            return [(ok, ("ret", some(Date(rd)))), (z3.Not(ok), ("ret", none()))]
+        return h
+
+    T["NaiveDate::succ_opt"] = opt_shift(lambda I, st, a: 1, "succ_opt")
+    T["NaiveDate::pred_opt"] = opt_shift(lambda I, st, a: -1, "pred_opt")
+    T["NaiveDate::checked_add_days"] = opt_shift(lambda I, st, a: a[1].fields[0], "checked_add_days")
+    T["NaiveDate::checked_sub_days"] = opt_shift(lambda I, st, a: -a[1].fields[0], "checked_sub_days")
+    T["NaiveDate::checked_add_signed"] = opt_shift(lambda I, st, a: a[1].fields[0], "checked_add_signed")
+    T["NaiveDate::checked_sub_signed"] = opt_shift(lambda I, st, a: -a[1].fields[0], "checked_sub_signed")
+
+    @reg("NaiveDate::signed_duration_since")
+    def signed_duration_since(I, st, a, c):
+        return Struct("TimeDelta", (deref(I, st, a[0]).rd - deref(I, st, a[1]).rd,))
+
+    @reg("Datelike::num_days_from_ce", "NaiveDate::num_days_from_ce")
+    def num_days_from_ce(I, st, a, c):
+        return deref(I, st, a[0]).rd
+
+    @reg("NaiveDate::from_num_days_from_ce_opt")
+    def from_num_days_from_ce_opt(I, st, a, c):
+        rd = a[0]
+        ok = in_range(rd)
+        if ok is True:
+            return some(Date(rd))
+        if ok is False:
+            return none()
+        return [(ok, ("ret", some(Date(rd)))), (z3.Not(ok), ("ret", none()))]
+
+    @reg("Datelike::year_ce")
+    def year_ce(I, st, a, c):
+        dt = deref(I, st, a[0])
+        y = dt.y if dt.y is not None else fields(I, st, dt).y
+        if not is_sym(y):
+            return Tup([y >= 1, y if y >= 1 else 1 - y])
+        return Tup([y >= 1, z3.If(y >= 1, y, 1 - y)])
+
     @reg("NaiveDate::iter_days")
     def iter_days(I, st, a, c):
         dt = deref(I, st, a[0])
